@@ -107,6 +107,25 @@ fn event_tree(t: &J) -> J {
     }
 }
 
+/// like jsontree::render, but string content comes from the code units `u` when present
+/// (TLC-made trees carry an ASCII atom in `s` for strings outside plain ASCII)
+fn render_u(t: &J) -> String {
+    match t["j"].as_str().unwrap_or("?") {
+        "obj" => {
+            let parts: Vec<String> = t["kv"].as_array().unwrap().iter()
+                .map(|p| format!("{}:{}", serde_json::to_string(p[0].as_str().unwrap()).unwrap(), render_u(&p[1])))
+                .collect();
+            format!("{{{}}}", parts.join(","))
+        }
+        "arr" => format!("[{}]", t["items"].as_array().unwrap().iter().map(render_u).collect::<Vec<_>>().join(",")),
+        "str" if t.get("u").is_some() => {
+            let s = String::from_utf8(j_bytes(&t["u"])).expect("utf-8 code units");
+            serde_json::to_string(&s).unwrap()
+        }
+        _ => jsontree::render(t),
+    }
+}
+
 fn tree_size(t: &J) -> usize {
     match t["j"].as_str().unwrap_or("?") {
         "obj" => 1 + t["kv"].as_array().unwrap().iter().map(|p| tree_size(&p[1])).sum::<usize>(),
@@ -133,27 +152,32 @@ enum Msg {
 }
 
 fn panic_text(e: Box<dyn std::any::Any + Send>) -> String {
-    if let Some(s) = e.downcast_ref::<&str>() {
+    let m = if let Some(s) = e.downcast_ref::<&str>() {
         s.to_string()
     } else if let Some(s) = e.downcast_ref::<String>() {
         s.clone()
     } else {
         "panic".to_string()
-    }
+    };
+    first_words(&m, 5)
+}
+
+/// first words of a message, digits-only words dropped (they are data, not the rule)
+fn first_words(d: &str, n: usize) -> String {
+    let words: Vec<String> = d
+        .split(|c: char| !c.is_ascii_alphanumeric())
+        .filter(|w| !w.is_empty() && !w.bytes().all(|b| b.is_ascii_digit()))
+        .take(n)
+        .map(|w| w.to_ascii_lowercase())
+        .collect();
+    let mut k = words.join("-");
+    k.truncate(60);
+    k
 }
 
 fn err_kind(e: &apache_avro::Error) -> String {
     // Details has no variant names in its Debug output: the first words of the message name the rule applied
-    let d = format!("{:?}", e.details());
-    let words: Vec<String> = d
-        .split(|c: char| !c.is_ascii_alphanumeric())
-        .filter(|w| !w.is_empty())
-        .take(4)
-        .map(|w| w.to_ascii_lowercase())
-        .collect();
-    let mut k = words.join("-");
-    k.truncate(48);
-    k
+    first_words(&format!("{:?}", e.details()), 4)
 }
 
 fn walk(s: &Schema, names: &mut Vec<String>, refs: &mut Vec<String>, n: &mut usize) {
@@ -354,7 +378,7 @@ fn observe(bytes: &[u8], timeout: Duration) -> (J, bool) {
 /// scenario -> the bytes handed to the parser
 fn scenario_bytes(scn: &J) -> Vec<u8> {
     if let Some(t) = scn.get("tree") {
-        jsontree::render(t).into_bytes()
+        render_u(t).into_bytes()
     } else if let Some(t) = scn.get("text").and_then(|t| t.as_str()) {
         t.as_bytes().to_vec()
     } else {
@@ -502,6 +526,21 @@ fn rand_json(r: &mut Rng, depth: usize) -> J {
 /// a schema-shaped JSON document with (usually few) faults; names from a small pool so that duplicates,
 /// dangling and forward references occur
 fn near_schema(r: &mut Rng, depth: usize, fault: usize) -> J {
+    let mut s = near_schema0(r, depth, fault);
+    // stray attribute whose key means something elsewhere (kept as a custom attribute when the schema is accepted)
+    if let Some(o) = s.as_object_mut() {
+        if r.chance(1, 8) {
+            let k = *r.pick(&["items", "values", "symbols", "size", "precision", "scale", "order", "fields", "default", "namespace", "doc", "x"]);
+            if !o.contains_key(k) {
+                let v = rand_json(r, 1);
+                o.insert(k.to_string(), v);
+            }
+        }
+    }
+    s
+}
+
+fn near_schema0(r: &mut Rng, depth: usize, fault: usize) -> J {
     if r.below(1000) < fault {
         return rand_json(r, 2);
     }
